@@ -469,6 +469,44 @@ def fsiParents (keys : List PKey) : V Unit :=
 /-- the parent test of the binary operations (`require_parents_equal_except_location`) -/
 def binaryParents (a b : PKey) : V Unit := liftR (requireParentsEq a b)
 
+/-- the multi-operand operations of the `pcons` grid -/
+inductive POp where
+  | fsi | mkpar | append | locrel | binary      -- binary: union, union_preserve_overlaps, intersection / minus / contains /
+  deriving DecidableEq, Repr                     --         has_overlap with strict_parent_compare, distance_to
+
+/-- the parent test of one multi-operand operation, with the exception class that operation raises -/
+def pconsModel (op : POp) (keys : List PKey) : V Unit :=
+  match op with
+  | .fsi => fsiParents keys
+  | _ => match keys with
+    | [a, b] =>
+        match op with
+        | .mkpar => if a.isEmpty || b.isEmpty then pure () else binaryParents a b
+        | .append =>
+            (match requireParentsEq a b with
+             | .ok _ => pure ()
+             | .error _ => raise .ValueError)
+        | .locrel =>
+            -- `location_relative_to`: NullParentException when only the argument has a parent
+            if a.isEmpty && b.isEmpty then pure ()
+            else if a.isEmpty then raise .NullParent else binaryParents a b
+        | _ => binaryParents a b
+    | _ => raise .ValueError
+
+/-- the parent kinds of `impl_validate.parent_kind` as `PKey` chains -/
+def kindKey : Nat → Option PKey
+  | 0 => some []
+  | 1 => some [(some "p", none, none)]
+  | 2 => some [(some "p", some "chromosome", none)]
+  | 3 => some [(some "p", some "plasmid", none)]
+  | 4 => some [(some "p", none, some "ACGTACGTAC".toList)]
+  | 5 => some [(some "p", none, some "TTTTTTTTTT".toList)]
+  | 6 => some [(some "p", none, none), (some "gA", none, none)]
+  | 7 => some [(some "p", none, none), (some "gB", none, none)]
+  | 8 => some [(none, some "X", none)]
+  | 9 => some [(none, some "Y", none)]
+  | _ => none
+
 /-! ### scan_windows -/
 
 /-- number of elements of `range(a, b, step)` for `step ≥ 1` -/
